@@ -155,6 +155,8 @@ def plan(tier, seed):
     for ci in range(4):
         shards.append(("saveindexing", ci, 4))
     shards.append(("grainfile",))
+    for ng_ in (4100, 8200):
+        shards.append(("sched_kernels", ng_))
     vs = [(4097, 2, 2), (8193, 2, 2), (8193, 3, 1)] if tier == "quick" else \
         [(4097, 2, 3), (8193, 2, 3), (8193, 3, 2), (12289, 3, 2), (12289, 2, 3), (8193, 4, 1), (16385, 4, 1)]
     for ng, T, b in vs:
@@ -673,7 +675,54 @@ def _run_sched(desc):
     return sh
 
 
+def _run_sched_kernels(desc):
+    """the other compiled loops over the peak list behind the refinement and the counts (refine_assigned, score_and_refine, score,
+    score_gvec_z) on lists longer than one 4096-peak block, teams of 2 and 3 threads, every schedule within one preemption at the words
+    more than one thread touches (vrt runtime): the counts, sums and matrices they hand back do not depend on the interleaving.  (On the
+    current tree these loops are serial: the exploration is then a single execution each.)"""
+    _, ng = desc
+    global _V
+    from vt.vrt import VRT, schedule_outcomes
+    from vt.sani import Call, A, I, D
+    if _V is None:
+        _V = VRT()
+    sh = Shard()
+    U = grains(seed_of())
+    gv = np.ascontiguousarray(peak_list(peak_pool(U), ng, shift=1))
+    ubi = np.ascontiguousarray(U[1])
+    lab = ((np.arange(ng) * 7) % 3).astype(np.int32)          # the label asked for occurs in every block
+
+    def loose(a, b):
+        if a[0] != b[0]:
+            return False
+        return all(x.shape == y.shape and (np.array_equal(x, y) if x.dtype.kind in "iu" else np.allclose(x, y, rtol=1e-9, atol=1e-12, equal_nan=True))
+                   for x, y in zip(a[1], b[1]))
+    calls = [Call("refine_assigned", [A(ubi.copy(), "io"), A(gv), A(lab), I(1), A(np.zeros(1, np.int32), "out"), A(np.zeros(1), "out"), I(ng)], ret="v"),
+             Call("score_and_refine", [A(ubi.copy(), "io"), A(gv), D(0.1), A(np.zeros(1, np.int32), "out"), A(np.zeros(1), "out"), I(ng)], ret="v"),
+             Call("score", [A(ubi.copy()), A(gv), D(0.1), I(ng)]),
+             Call("score_gvec_z", [A(ubi.copy()), A(np.linalg.inv(ubi)), A(gv), A(np.zeros((ng, 3)), "out"), A(np.zeros((ng, 3)), "out"), A(np.zeros((ng, 3)), "out"),
+                                   A(np.zeros((ng, 3)), "out"), I(1), I(ng)], ret="v")]
+    for call in calls:
+        r = schedule_outcomes(_V, call, threads=(2, 3), bound=1, max_exec=4000, budget_s=20.0, same=loose)
+        if r is None:
+            continue
+        bad, st = r
+        case = {"kind": "sched_kernels", "kernel": call.kernel, "npeaks": ng, "seed": seed_of()}
+        if bad:
+            sh.violation("%s:outcome-depends-on-the-thread-schedule" % call.kernel, dict(case, team=bad[0][0], schedule=[int(x) for x in bad[0][1]]),
+                         {"schedules_with_another_outcome": len(bad), "conflict_words": st["conflict_words"]})
+        sh.evaluations += 1
+        sh.nontrivial += 1
+        sh.states += st["executions"]
+        sh.traces_validated += st["executions"]
+        sh.outcomes.add((call.kernel, st["regions"] > 0))
+    sh.sample({"kind": "sched_kernels", "npeaks": ng}, limit=1)
+    return sh
+
+
 def run_shard(desc):
+    if desc[0] == "sched_kernels":
+        return _run_sched_kernels(desc)
     if desc[0] == "grainfile":
         # the grain file refinegrains.readubis starts from (shared with C09): positions known / unknown in every pattern
         from vt.props import c09
@@ -696,6 +745,10 @@ def replay(case):
     indexing.loglevel = 3
     sh = Shard()
     os.environ["VERIF_SEED"] = str(case.get("seed", 0))
+    if case["kind"] == "sched_kernels":
+        r = _run_sched_kernels(("sched_kernels", case["npeaks"]))
+        sh.violations = [v for v in r.violations if v["case"]["kernel"] == case["kernel"]]
+        return (not sh.violations), {"violations": sh.violations[:2]}
     if case["kind"] == "grainfile":
         from vt.props import c09
         return c09.replay(case)
